@@ -15,6 +15,10 @@ from concurrent.futures import ThreadPoolExecutor
 VERIF = os.path.dirname(os.path.dirname(os.path.dirname(os.path.abspath(__file__))))
 REPO = os.environ.get('VERIF_REPO', '/repo')
 COQ = os.path.join(VERIF, 'coq')
+# Output root.  Runs against /repo write build/, replays/ and evidence/ under /verif.  Runs against a scratch tree (VERIF_REPO set to
+# something else: seeded changes, harmless rewrites) write them under /tmp/vf_out/<name of the tree>/ so that they can run concurrently
+# with each other and with the real checks, and never overwrite the evidence of the tree under /repo.
+OUT = os.environ.get('VERIF_OUT') or (VERIF if os.path.realpath(REPO) == '/repo' else os.path.join('/tmp/vf_out', os.path.basename(os.path.normpath(REPO))))
 PY = '/venv/bin/python'
 NCPU = min(16, os.cpu_count() or 4)
 
@@ -73,10 +77,10 @@ class Ctx:
     def __init__(self, pid, tier, seed):
         self.pid, self.tier, self.seed = pid, tier, seed
         self.t0 = time.time()
-        self.build = os.path.join(VERIF, 'build', pid)
+        self.build = os.path.join(OUT, 'build', pid)
         shutil.rmtree(self.build, ignore_errors=True)
         os.makedirs(self.build, exist_ok=True)
-        shutil.rmtree(os.path.join(VERIF, 'replays', pid), ignore_errors=True)   # replays of earlier runs are stale
+        shutil.rmtree(os.path.join(OUT, 'replays', pid), ignore_errors=True)   # replays of earlier runs are stale
         self.obligations = []        # dicts: name, ok, kind, detail
         self.evals = 0
         self.distinct = set()
@@ -308,8 +312,8 @@ class Ctx:
             'wall_s': round(wall, 2),
             'violations': reported,
         }
-        os.makedirs(os.path.join(VERIF, 'evidence'), exist_ok=True)
-        with open(os.path.join(VERIF, 'evidence', f'{self.pid}.json'), 'w') as f:
+        os.makedirs(os.path.join(OUT, 'evidence'), exist_ok=True)
+        with open(os.path.join(OUT, 'evidence', f'{self.pid}.json'), 'w') as f:
             json.dump(ev, f, indent=1, default=str)
         for l in out_lines:
             print(l, flush=True)
@@ -323,7 +327,7 @@ class Ctx:
         return [o for o in failed if o['name'] not in explained]
 
     def _write_replay(self, v):
-        d = os.path.join(VERIF, 'replays', self.pid)
+        d = os.path.join(OUT, 'replays', self.pid)
         os.makedirs(d, exist_ok=True)
         body = {'property': self.pid, 'key': v['key'], 'what': v['what'], 'found_failing_input': v['found'],
                 'seed': self.seed, 'tier': self.tier, 'replay': v['replay']}
